@@ -27,12 +27,15 @@ type grpcAgglayer struct {
 	subs   []submission
 	nextID common.Hash
 	idErr  error
+	signer common.Address
 }
 
 type submission struct {
 	InMem *agglayertypes.Certificate
 	Wire  *nodetypes.Certificate
 	ID    common.Hash
+	// address of the key the node instance that submitted it was configured with
+	Signer common.Address
 }
 
 func fb32(h common.Hash) *interop.FixedBytes32 { return &interop.FixedBytes32{Value: h.Bytes()} }
@@ -76,7 +79,7 @@ func newGRPCAgglayer(m *mAgglayer) (*grpcAgglayer, error) {
 		if g.idErr != nil {
 			return nil, status.Error(codes.Internal, g.idErr.Error())
 		}
-		g.subs = append(g.subs, submission{InMem: g.inMem, Wire: r.GetCertificate(), ID: g.nextID})
+		g.subs = append(g.subs, submission{InMem: g.inMem, Wire: r.GetCertificate(), ID: g.nextID, Signer: g.signer})
 		return &nodev1.SubmitCertificateResponse{CertificateId: &nodetypes.CertificateId{Value: fb32(g.nextID)}}, nil
 	}
 	g.srv.Header = func(r *nodev1.GetCertificateHeaderRequest) (*nodev1.GetCertificateHeaderResponse, error) {
@@ -120,8 +123,11 @@ func (g *grpcAgglayer) stop() { g.srv.Stop() }
 // object goes through the real client so that the server sees exactly what would be on the wire.
 func (g *grpcAgglayer) SendCertificate(ctx context.Context, c *agglayertypes.Certificate) (common.Hash, error) {
 	id, err := g.m.SendCertificate(ctx, c)
+	g.m.mu.Lock()
+	sg := g.m.signer
+	g.m.mu.Unlock()
 	g.mu.Lock()
-	g.inMem, g.nextID, g.idErr = c, id, err
+	g.inMem, g.nextID, g.idErr, g.signer = c, id, err, sg
 	g.mu.Unlock()
 	return g.cl.SendCertificate(ctx, c)
 }
